@@ -57,7 +57,8 @@ Complete(f) ==
 (***************************************************************************)
 Frame(c) == [cls |-> c, idx |-> 0, plist |-> FALSE, seen |-> {}, keys |-> {}, els |-> <<>>, mem |-> <<>>, memtags |-> <<>>]
 InstOf(f) == [cls |-> f.cls, els |-> f.els, mem |-> f.mem]
-St0 == [stack |-> <<>>, skip |-> 0, verdict |-> "run", why |-> "", warn |-> 0, inst |-> [cls |-> "", els |-> <<>>, mem |-> <<>>], open |-> FALSE]
+DocSt0 == [stack |-> <<>>, skip |-> 0, verdict |-> "run", why |-> "", warn |-> 0, inst |-> [cls |-> "", els |-> <<>>, mem |-> <<>>], open |-> FALSE,
+        lexok |-> TRUE]     \* every data element met so far is lexically valid for its declared type (C11)
 Rej(st, why) == [st EXCEPT !.verdict = "reject", !.why = why]
 \* bind a value (or a finished instance) into the top frame under attribute a
 Bind(f, a, v) == IF IsList(a) THEN [f EXCEPT !.mem = Append(@, v), !.memtags = Append(@, a.tag)]
@@ -94,17 +95,19 @@ StepDoc(st, tok) ==
                  CASE a.k = "unsup" -> [st2 EXCEPT !.skip = IF tok.e = "open" THEN 1 ELSE 0]
                    [] tok.e = "leaf" ->
                         IF a.k \in {"elem", "lelem"}
-                        THEN LET v == Conv(TypeTable[a.ty], tok.text) IN
-                             IF v = RejectV THEN Rej(st, "value")
-                             ELSE IF v = UnjudgedV \/ v = NoneV THEN [st EXCEPT !.verdict = "unjudged", !.why = "value left open"]
-                             ELSE [st2 EXCEPT !.stack[Len(st.stack)] = Bind(f2, a, v)]
+                        THEN LET v == Conv(TypeTable[a.ty], tok.text)
+                                 lx == st.lexok /\ Lexical(TypeTable[a.ty],
+                                          IF TypeTable[a.ty].k \in {"str", "nag"} THEN Decode(tok.text) ELSE tok.text) IN
+                             IF v = RejectV THEN [Rej(st, "value") EXCEPT !.lexok = lx]
+                             ELSE IF v = UnjudgedV \/ v = NoneV THEN [st EXCEPT !.verdict = "unjudged", !.why = "value left open", !.lexok = lx]
+                             ELSE [st2 EXCEPT !.stack[Len(st.stack)] = Bind(f2, a, v), !.lexok = lx]
                         ELSE Rej(st, "text in an aggregate slot")
                    [] OTHER -> IF a.k \in {"sub", "lagg"}
                                THEN (IF tok.tag \in Classes /\ Schema[tok.tag].bytag
                                      THEN [st2 EXCEPT !.stack = Append(@, Frame(a.cls))]
                                      ELSE Rej(st, "class not found by tag"))
                                ELSE Rej(st, "aggregate in an element slot")
-RunDoc(doc) == FoldLeft(StepDoc, St0, doc)
+RunDoc(doc) == FoldLeft(StepDoc, DocSt0, doc)
 
 (***************************************************************************)
 (* Writing an instance: children in declaration order, list members in     *)
